@@ -17,6 +17,7 @@ import (
 	"net"
 	"os"
 	"runtime"
+	"strings"
 	"sync"
 	"sync/atomic"
 	"testing"
@@ -49,6 +50,9 @@ type C18Case struct {
 	// DropConn (client side): after Upgrade the caller keeps only the object Upgrade returned and lets go of the
 	// *Connection; a garbage collection later that object must still deliver the stream
 	DropConn bool `json:"drop_conn,omitempty"`
+	// Pad: the request (handler side) / reply (client side) frame itself carries a string of this many bytes, so that
+	// the frame is larger than the reader's buffer and its tail shares a segment with the bytes that follow it
+	Pad int `json:"pad,omitempty"`
 }
 
 // checkReads runs the cursor model over the results; the last result is the drain.
@@ -140,7 +144,11 @@ func execC18Handler(c C18Case, bound time.Duration) (bool, error) {
 		script = append(script, Op{Op: op.Kind, N: op.N})
 	}
 	script = append(script, Op{Op: "readall"})
-	b, _ := json.Marshal(ScriptParams{Conn: 0, ID: 0, Script: script})
+	sp := ScriptParams{Conn: 0, ID: 0, Script: script}
+	if c.Pad > 0 {
+		sp.Pad = json.RawMessage(`"` + strings.Repeat("p", c.Pad) + `"`)
+	}
+	b, _ := json.Marshal(sp)
 	stream := append(append(EncodeCall("x.y.Up", b, false, false, true), 0), c.Tail...)
 	var conn net.Conn
 	if tr == "pipe" {
@@ -255,6 +263,9 @@ func execC18Client(c C18Case, bound time.Duration) (bool, error) {
 		}
 	}()
 	reply := []byte(`{"parameters":{"upgraded":true}}`)
+	if c.Pad > 0 {
+		reply = []byte(`{"parameters":{"upgraded":true,"pad":"` + strings.Repeat("p", c.Pad) + `"}}`)
+	}
 	stream := append(append(append([]byte(nil), reply...), 0), c.Tail...)
 	gotBack := make(chan []byte, 1)
 	go func() {
@@ -329,7 +340,11 @@ func execC18Client(c C18Case, bound time.Duration) (bool, error) {
 	if err != nil || rwc == nil {
 		return false, fmt.Errorf("client side: the upgrade reply was not received: flags %#x, conn %v, err %v", fl, rwc, err)
 	}
-	if d := JSONDiff([]byte(`{"upgraded":true}`), out); d != "" {
+	wantOut := []byte(`{"upgraded":true}`)
+	if c.Pad > 0 {
+		wantOut = []byte(`{"upgraded":true,"pad":"` + strings.Repeat("p", c.Pad) + `"}`)
+	}
+	if d := JSONDiff(wantOut, out); d != "" {
 		return false, fmt.Errorf("client side: upgrade reply parameters: %s", d)
 	}
 	if c.DropConn {
@@ -448,8 +463,17 @@ func genC18(t *rapid.T) C18Case {
 		c.Transport = "unix"
 	}
 	var tail bytes.Buffer
+	bigSizes := []int{4000, 4090, 4096, 4100, 5000, 8190, 8200, 12000, 16400, 33000, 70000}
+	if rapid.IntRange(0, 3).Draw(t, "padded") == 0 {
+		c.Pad = rapid.SampledFrom(bigSizes).Draw(t, "pad")
+	}
 	for k := rapid.IntRange(0, 3).Draw(t, "preframes"); k > 0; k-- {
-		tail.WriteString(DefaultJSON.Object(t, 2))
+		if rapid.IntRange(0, 5).Draw(t, "bigpre") == 0 {
+			// a frame larger than the reader's buffer among the frames that precede the raw data
+			tail.WriteString(`{"big":"` + strings.Repeat("b", rapid.SampledFrom(bigSizes).Draw(t, "bigprelen")) + `"}`)
+		} else {
+			tail.WriteString(DefaultJSON.Object(t, 2))
+		}
 		tail.WriteByte(0)
 	}
 	pk := rapid.IntRange(0, 4).Draw(t, "payload")
